@@ -17,10 +17,15 @@ import (
 
 	"pgregory.net/rapid"
 
+	"google.golang.org/protobuf/proto"
+
 	"github.com/tink-crypto/tink-go/v2/aead"
+	"github.com/tink-crypto/tink-go/v2/core/registry"
 	"github.com/tink-crypto/tink-go/v2/daead"
 	"github.com/tink-crypto/tink-go/v2/hybrid"
 	"github.com/tink-crypto/tink-go/v2/insecurecleartextkeyset"
+	"github.com/tink-crypto/tink-go/v2/internal/primitiveregistry"
+	"github.com/tink-crypto/tink-go/v2/internal/protoserialization"
 	"github.com/tink-crypto/tink-go/v2/jwt"
 	"github.com/tink-crypto/tink-go/v2/keyderivation"
 	"github.com/tink-crypto/tink-go/v2/keyset"
@@ -29,6 +34,7 @@ import (
 	tinkpb "github.com/tink-crypto/tink-go/v2/proto/tink_go_proto"
 	"github.com/tink-crypto/tink-go/v2/signature"
 	"github.com/tink-crypto/tink-go/v2/streamingaead"
+	"github.com/tink-crypto/tink-go/v2/tink"
 	"github.com/tink-crypto/tink-go/v2/verifharness/internal/aeadcase"
 	"github.com/tink-crypto/tink-go/v2/verifharness/internal/detrand"
 	"github.com/tink-crypto/tink-go/v2/verifharness/internal/evid"
@@ -372,6 +378,88 @@ func builders() []builder {
 				}
 				return nil
 			}}}
+		}},
+		{"registry", func(rt *rapid.T) (string, []op) {
+			// read operations on the global registries and the serialization registry
+			c := aeadcase.Draw(rt)
+			k := c.K
+			if k == nil {
+				k = tk.Must(c.NewKey(tk.NoPrefix, 0))
+			}
+			ks := tk.Must(protoserialization.SerializeKey(k))
+			want := tk.Must(proto.MarshalOptions{Deterministic: true}.Marshal(ks.KeyData()))
+			url := ks.KeyData().GetTypeUrl()
+			params := k.Parameters()
+			wantTmpl := tk.Must(proto.MarshalOptions{Deterministic: true}.Marshal(tk.Must(protoserialization.SerializeParameters(params))))
+			return "registry/serialization lookups for " + c.Type, []op{
+				{"SerializeKey+ParseKey", func() error {
+					s2, err := protoserialization.SerializeKey(k)
+					if err != nil {
+						return err
+					}
+					b, _ := proto.MarshalOptions{Deterministic: true}.Marshal(s2.KeyData())
+					if !bytes.Equal(b, want) {
+						return fmt.Errorf("serialization differs")
+					}
+					k2, err := protoserialization.ParseKey(s2)
+					if err != nil || !k2.Equal(k) {
+						return fmt.Errorf("parsed key differs: %v", err)
+					}
+					return nil
+				}},
+				{"SerializeParameters+ParseParameters", func() error {
+					kt, err := protoserialization.SerializeParameters(params)
+					if err != nil {
+						return err
+					}
+					b, _ := proto.MarshalOptions{Deterministic: true}.Marshal(kt)
+					if !bytes.Equal(b, wantTmpl) {
+						return fmt.Errorf("template differs")
+					}
+					p2, err := protoserialization.ParseParameters(kt)
+					if err != nil || !p2.Equal(params) {
+						return fmt.Errorf("parsed parameters differ: %v", err)
+					}
+					return nil
+				}},
+				{"registry.GetKeyManager+Primitive", func() error {
+					km, err := registry.GetKeyManager(url)
+					if err != nil {
+						return err
+					}
+					if !km.DoesSupport(url) || km.TypeURL() != url {
+						return fmt.Errorf("key manager mismatch")
+					}
+					p, err := registry.PrimitiveFromKeyData(ks.KeyData())
+					if err != nil {
+						return err
+					}
+					a, ok := p.(tink.AEAD)
+					if !ok {
+						return fmt.Errorf("primitive is %T", p)
+					}
+					ct, err := a.Encrypt([]byte("x"), nil)
+					if err != nil {
+						return err
+					}
+					pt, err := a.Decrypt(ct, nil)
+					if err != nil || string(pt) != "x" {
+						return fmt.Errorf("round trip through registry primitive: %v", err)
+					}
+					return nil
+				}},
+				{"registry.NewKeyData", func() error {
+					kd, err := registry.NewKeyData(aead.AES128GCMKeyTemplate())
+					if err != nil || len(kd.GetValue()) == 0 {
+						return fmt.Errorf("NewKeyData: %v", err)
+					}
+					return nil
+				}},
+				{"primitiveregistry.Primitive", func() error {
+					_, err := primitiveregistry.Primitive(k)
+					return err
+				}},
+			}
 		}},
 		{"handle", func(rt *rapid.T) (string, []op) {
 			m := keyset.NewManager()
